@@ -24,6 +24,7 @@ RULE = (
     "receives the body's exception object (or None), the caller gets the body's result / exception (None if "
     "suppressed), and for generator-based managers every call has a generator of its own. Non-trivial: >=2 calls "
     "overlapped in time or >=2 sequential calls in one task; distinct = distinct (scenario, interleaving)."
+    " Extensions of rounds 9-12: stacked managers in either order, one function decorated separately by two managers, the decorating manager entered directly, class-based managers with the _recreate_cm hook, calls that do not bind."
 )
 COMPONENTS = COMPONENTS_AIO
 ASSUMPTIONS = [
